@@ -409,7 +409,8 @@ pub fn gen_spec(rng: &mut Rng) -> KySpec {
     // char n-grams
     let mut items: Vec<(String, Vec<i16>)> = vec![];
     for _ in 0..rng.range(1, 10) {
-        let n = rng.range(1, (2 * cw).min(4));
+        let maxn = if rng.chance(1, 5) { 2 * cw } else { (2 * cw).min(4) };
+        let n = rng.range(1, maxn);
         let k = gen::gen_pattern(rng, n);
         if items.iter().any(|(x, _)| *x == k) {
             continue;
@@ -420,7 +421,8 @@ pub fn gen_spec(rng: &mut Rng) -> KySpec {
     let char_dict = KyTrie { n_dicts: 0, items, with_suffix_outputs: with_suffix };
     let mut items: Vec<(String, Vec<i16>)> = vec![];
     for _ in 0..rng.range(1, 10) {
-        let n = rng.range(1, (2 * tw).min(4));
+        let maxn = if rng.chance(1, 5) { 2 * tw } else { (2 * tw).min(4) };
+        let n = rng.range(1, maxn);
         let k: String = (0..n).map(|_| *rng.pick(&['D', 'R', 'H', 'T', 'K', 'O'])).collect();
         if items.iter().any(|(x, _)| *x == k) {
             continue;
@@ -462,7 +464,7 @@ pub fn gen_spec(rng: &mut Rng) -> KySpec {
     let dict = if n_dicts > 0 && rng.chance(5, 6) {
         let mut items = vec![];
         for _ in 0..rng.range(1, 8) {
-            let n = rng.range(1, 6);
+            let n = if rng.chance(1, 10) { rng.range(7, 20) } else { rng.range(1, 6) };
             let k = gen::gen_pattern(rng, n);
             if items.iter().any(|(x, _): &(String, KyTagEntry)| *x == k) {
                 continue;
